@@ -11,6 +11,7 @@ s=$(date +%s)
 out=$(PBVERIF_NO_REGRESS=1 /tmp/dev/target/release/pbcheck $id $tier 2>/dev/null); rc=$?
 e=$(date +%s)
 git -C /tmp/dev/repo checkout -q -- .
+(cd /tmp/dev/verif/harness && CARGO_TARGET_DIR=/tmp/dev/target cargo build --release --offline -q 2>/dev/null)
 echo "$(basename $(dirname $p))/$(basename $p) vs $id $tier: exit $rc in $((e-s)) s"
 echo "$out" | grep -A1 "^VIOLATION" | head -2 | cut -c1-300
 rm -rf /tmp/dev/verif/replays
